@@ -79,11 +79,12 @@ theorem fitShifts_optimal (obs : List (Obs K)) (wxy wuv : Option (List K)) (L : 
 
 /-- **`fit_general`**: whatever is returned minimises the weighted objective over all affine maps
 (through the verified model of `inv`, C17) -/
-theorem fitGeneral_optimal (eps : K) (heps : 0 < eps) (obs : List (Obs K)) (wxy wuv : Option (List K))
-    (L : Lin K) (h : fitGeneral eps obs wxy wuv = .ok L)
+theorem fitGeneral_optimal (eps epsD : K) (heps : 0 < eps) (obs : List (Obs K))
+    (wxy wuv : Option (List K))
+    (L : Lin K) (h : fitGeneral eps epsD obs wxy wuv = .ok L)
     (hlen : (generalW obs wxy wuv).length = obs.length) :
     ∀ L' : Lin K, SS (generalW obs wxy wuv) obs L ≤ SS (generalW obs wxy wuv) obs L' :=
-  TW.fitGeneral_optimal eps heps obs wxy wuv L h hlen
+  TW.fitGeneral_optimal eps epsD heps obs wxy wuv L h hlen
 
 /-- noise-free shifted data are returned exactly (all weight modes) -/
 theorem exact_recovery_shift (obs : List (Obs K)) (wxy wuv : Option (List K)) (L : Lin K)
@@ -107,17 +108,16 @@ theorem exact_recovery_shift (obs : List (Obs K)) (wxy wuv : Option (List K)) (L
       simp only at this ⊢
       rw [this]; ring
 
-/-- noise-free affine data: if `fit_general` returns at all (i.e. the normal matrix was
-invertible: the positively weighted points are not collinear) it returns the generating map -/
-theorem exact_recovery_general (eps : K) (heps : 0 < eps) (obs : List (Obs K))
-    (wxy wuv : Option (List K)) (L : Lin K) (h : fitGeneral eps obs wxy wuv = .ok L)
+/-- noise-free affine data: if `fit_general` returns at all (i.e. the collinearity guard did not
+fire — the positively weighted points are not collinear to within `epsD` — and the normal matrix
+was inverted) it returns the generating map.  The hypothesis `h` contains the non-degeneracy
+condition: `generalGuard epsD obs wxy wuv = false` (`TW.fitGeneral_ok`); on collinear or
+coincident points the code now raises (`C17.collinear_general_singular`). -/
+theorem exact_recovery_general (eps epsD : K) (heps : 0 < eps) (obs : List (Obs K))
+    (wxy wuv : Option (List K)) (L : Lin K) (h : fitGeneral eps epsD obs wxy wuv = .ok L)
     (hlen : (generalW obs wxy wuv).length = obs.length)
     (T : Lin K) (hT : NoiseFree obs T) : L = T := by
-  unfold fitGeneral at h
-  split at h
-  · cases h
-  split at h
-  · cases h
+  obtain ⟨_, _, _, h⟩ := fitGeneral_ok eps epsD obs wxy wuv L h
   obtain ⟨ex, ey⟩ := gsums_noiseFree (generalW obs wxy wuv) obs hlen T hT
   exact gsolve_noiseFree eps heps _ L T h ex ey
 
@@ -287,8 +287,24 @@ example : tup (fitShifts (K := ℚ) [⟨1, 2, 0, 0⟩, ⟨3, 1, 1, 1⟩, ⟨5, 5
     = some (1, 0, 0, 1, 8/5, 4/5) := by
   decide +kernel
 
-example : tup (fitGeneral (K := ℚ) (1/1000000) [⟨1, 1, 0, 0⟩, ⟨3, 0, 1, 0⟩, ⟨0, 4, 0, 1⟩, ⟨2, 3, 1, 1⟩] none none)
+example : tup (fitGeneral (K := ℚ) (1/1000000) (1/4503599627370496)
+    [⟨1, 1, 0, 0⟩, ⟨3, 0, 1, 0⟩, ⟨0, 4, 0, 1⟩, ⟨2, 3, 1, 1⟩] none none)
     = some (2, -1, -1, 3, 1, 1) := by
+  decide +kernel
+
+-- the non-degeneracy condition inside the hypothesis of `exact_recovery_general` /
+-- `fitGeneral_optimal` (the collinearity guard with the code's threshold 2^-52 does not fire) is
+-- met by these four points, and by a thin but legitimate set (aspect ratio 1e-6)
+example : generalGuard (K := ℚ) (1/4503599627370496)
+    [⟨1, 1, 0, 0⟩, ⟨3, 0, 1, 0⟩, ⟨0, 4, 0, 1⟩, ⟨2, 3, 1, 1⟩] none none = false := by decide +kernel
+example : tup (fitGeneral (K := ℚ) (1/1000000) (1/4503599627370496)
+    [⟨1, 1, 0, 0⟩, ⟨2000001, -999999, 1000000, 0⟩, ⟨0, 4, 0, 1⟩, ⟨2000000, -999996, 1000000, 1⟩,
+     ⟨1000001, -499999, 500000, 0⟩] none none)
+    = some (2, -1, -1, 3, 1, 1) := by
+  decide +kernel
+-- … while a weighted set whose positively weighted points are collinear is refused
+example : tup (fitGeneral (K := ℚ) (1/1000000) (1/4503599627370496)
+    [⟨1, 1, 0, 0⟩, ⟨3, 0, 1, 0⟩, ⟨5, -1, 2, 0⟩, ⟨2, 3, 1, 1⟩] (some [1, 1, 1, 0]) none) = none := by
   decide +kernel
 
 
